@@ -285,7 +285,8 @@ def tlc_stats(out):
     return int(m.group(2)), int(m.group(1))  # distinct states, transitions(generated)
 
 
-VIOL_RE = re.compile(r'<<"VIOL", (\d+), "([^"]*)", "([^"]*)", (\d+), "([^"]*)">>')
+# (TLC's pretty-printer breaks a tuple that does not fit 80 columns over several lines: allow white space between the parts)
+VIOL_RE = re.compile(r'<<\s*"VIOL",\s*(\d+),\s*"([^"]*)",\s*"([^"]*)",\s*(\d+),\s*"([^"]*)"\s*>>')
 
 
 def validate_trace(trace_path, workdir, name, spec="PropTrace", cfgfile="PropTrace.cfg", consts=None):
